@@ -75,14 +75,16 @@ def statement_token_edits(run: Run, stmts: list[str], vocab: list[str]) -> list[
 
 
 def indent_family(run: Run, n: int) -> list[str]:
-    """programs whose indentation is drawn from every combination of {space, tab, 8 spaces, tab+space, ff}"""
-    units = {"sp": "    ", "tab": "\t", "sp8": "        ", "tabsp": "\t ", "sptab": " \t", "two": "  ", "none": ""}
+    """programs whose lines take their indentation, independently, from a set of whitespace strings mixing spaces, tabs and
+    form feeds: flat blocks (every line its own unit) and nested blocks (outer / inner / inner / dedent)"""
+    units = {"s1": " ", "s2": "  ", "s4": "    ", "s7": "       ", "s8": "        ", "t": "\t", "ts": "\t ", "st": " \t", "tt": "\t\t", "s2t": "  \t",
+             "ts7": "\t       ", "ft": "\f\t", "sf4": " \f    ", "none": ""}
     out = []
     for combo in gens.chargen(run, list(units), n, minlen=2, name="indentfam"):
-        body = "if a:\n" + "".join(units[u] + f"x{i} = {i}\n" for i, u in enumerate(combo))
-        out.append(body)
-        if len(combo) >= 2:
-            out.append("if a:\n" + units[combo[0]] + "if b:\n" + "".join(units[combo[0]] + units[u] + f"y{i}\n" for i, u in enumerate(combo[1:])))
+        ws = [units[u] for u in combo]
+        out.append("if a:\n" + "".join(w + f"x{i} = {i}\n" for i, w in enumerate(ws)))
+        # nested: first unit = outer block, the others = lines of the inner block, then a dedent to the outer unit
+        out.append("if a:\n" + ws[0] + "if b:\n" + "".join(w + f"y{i}\n" for i, w in enumerate(ws[1:])) + ws[0] + "z\n")
     return out
 
 
@@ -133,9 +135,18 @@ def check(run: Run) -> None:
         for sfx in SUFFIXES:
             add(base + sfx, "exec", "suffix")
             add(base.rstrip("\n") + sfx, "exec", "suffix_same_line")
+    # 3c. f-string literals (FString.tla): those CPython rejects must be rejected too
+    from . import c10
+
+    fs = c10.generate(run, run.tier)
+    for c in fs[:: (3 if run.tier == "quick" else 1)]:
+        if not any(x in c["src"] for x in ("$", "`", "?", "&&", "||")):     # Python lexicon only
+            add(c["src"] + "\n", "exec", "fstring.tla")
     # 4. indentation
     for t in indent_family(run, cfg["indent"]):
         add(t, "exec", "indent")
+    for c in gens.indent(run):
+        add(c["src"], "exec", "indent.tla:" + c["outcome"])
 
     res = run_ops("c01", [{"src": c["src"], "mode": c["mode"]} for c in cases], limit=20.0)
     traces, invalid = [], 0
